@@ -330,6 +330,20 @@ def _init_worker(home):
 
 
 def run_cases(cases, workers: int | None = None, fresh: bool = False):
+    """first pass with the normal per-case timeout; cases that time out are re-run, few at a time, with
+    eight times the timeout before they are called a hang (a loaded machine must not look like a hang)"""
+    res = _run_cases(cases, workers, fresh)
+    slow = [i for i, r in enumerate(res) if r.get('kind') == 'hang' and not cases[i].get('meta', {}).get('probe')]
+    if slow:
+        retry = [dict(cases[i], timeout=8 * float(cases[i].get('timeout', TIMEOUT))) for i in slow]
+        rr = _run_cases(retry, min(4, len(retry)), True)
+        for i, r in zip(slow, rr):
+            r['slow'] = True
+            res[i] = r
+    return res
+
+
+def _run_cases(cases, workers: int | None = None, fresh: bool = False):
     """run many cases on a process pool; returns results in order.
     fresh=True: every case runs in a newly forked child of a parent that has imported the package
     but never compiled anything (pristine process-level state)."""
